@@ -7,6 +7,7 @@ Z3 spokes_grad assembles only min_trap_grad / trap_grad pieces (sign flips), wit
 NOT decided: |g| <= gmax and the slew-rate limit (inequalities over ceil-rounded runtime values), k-space increments of spokes_grad.
 """
 import ast
+from fractions import Fraction
 
 from .. import terms as T
 from ..domains import ANY_, ZERO_, Endpoints
@@ -62,6 +63,192 @@ def _amp_slew(run, M, f, vn, o, pieces, ctext):
               "(otherwise the waveform jumps at the plateau or a ramp step exceeds dgdt*dt)" % (ctext[:100], T.show(up, 200), T.show(dn, 120)), stmt="Z5:" + ctext[:80])
 
 
+# ------------------------------------------------------------------------------------------ Z7 / Z8: trap_grad, trapezoid regime
+def _atoms_of(p):
+    return [(a, e) for m in p.t for a, e in m]
+
+
+def _is_integer_valued(p):
+    """sums/products of integers and of int()/ceil()/floor()/floordiv() values"""
+    for m, c in p.t.items():
+        if c[1] != 0 or c[0].denominator != 1:
+            return False
+        for a, e in m:
+            if e < 0 or e.denominator != 1:
+                return False
+            if not (a[0] == "app" and a[1] in ("int", "ceil", "floor", "floordiv", "len")):
+                return False
+    return True
+
+
+ROUNDINGS = ("int", "ceil", "floor", "floordiv")
+
+
+def _relax_atom(a):
+    """a term provably <= the rounding atom `a` (exponent 1): int(n) = n for integer-valued n (else > n - 1), ceil(x) >= x, floor(x) >= x - 1,
+    floordiv(x, k) >= x/k - 1 for k > 0; applied again while the result is itself a positive multiple of a single rounding"""
+    arg = T.dec(a[2][0])
+    if not isinstance(arg, T.Poly):
+        return None
+    if a[1] == "ceil":
+        lb = arg
+    elif a[1] == "int":
+        lb = arg if _is_integer_valued(arg) else T.sub(arg, T.const(1))
+    elif a[1] == "floor":
+        lb = T.sub(arg, T.const(1))
+    else:
+        k = T.dec(a[2][1])
+        kf = k.as_fraction() if isinstance(k, T.Poly) else None
+        if kf is None or kf <= 0:
+            return None
+        lb = T.sub(T.scale(arg, 1 / kf), T.const(1))
+    if len(lb.t) == 1:
+        (m, c), = lb.t.items()
+        rs = [(a2, e2) for a2, e2 in m if a2[0] == "app" and a2[1] in ROUNDINGS]
+        if len(rs) == 1 and len(m) == 1 and rs[0][1] == 1 and c[1] == 0 and c[0] > 0:
+            inner = _relax_atom(rs[0][0])
+            if inner is not None:
+                return T.scale(inner, c[0])
+    return lb
+
+
+def _lower_bounds(p):
+    """candidate terms provably <= p: each top-level rounding atom (positive coefficient, exponent 1, alone in its monomial up to positive
+    parameters) is either kept exact or relaxed by _relax_atom; roundings nested inside a relaxed argument stay exact, so that they can cancel
+    against other occurrences"""
+    tops = []
+    for m, c in p.t.items():
+        for a, e in m:
+            if a[0] == "app" and a[1] in ROUNDINGS and a not in tops:
+                tops.append(a)
+    tops = tops[:4]
+    out = []
+    for mask in range(1 << len(tops)):
+        chosen = [a for i, a in enumerate(tops) if mask >> i & 1]
+        cand = T.const(0)
+        ok = True
+        for m, c in p.t.items():
+            term = T.Poly({frozenset(): c})
+            for a, e in m:
+                ap = T.Poly({frozenset({(a, e)}): T.ONE})
+                if a in chosen:
+                    others_pos = all((a2[0] == "sym" and a2[1] in SCALARS) or a2 is a for a2, _ in m)
+                    if e != 1 or c[1] != 0 or c[0] <= 0 or not others_pos:
+                        ok = False
+                        break
+                    ap = _relax_atom(a)
+                    if ap is None:
+                        ok = False
+                        break
+                term = T.mul(term, ap)
+            if not ok:
+                break
+            cand = T.add(cand, term)
+        if ok:
+            out.append(cand)
+    return out
+
+
+def _lower_bound(p):
+    c = _lower_bounds(p)
+    return c[-1] if c else None
+
+
+def _provably_nonneg(p):
+    """every monomial has a positive real coefficient and consists of the positive parameters (and rounded values of them)"""
+    if p.is_zero():
+        return True
+    for m, c in p.t.items():
+        if c[1] != 0 or c[0] < 0:
+            return False
+        for a, e in m:
+            if a[0] == "sym" and a[1] in SCALARS:
+                continue
+            if a[0] == "app" and a[1] in ("int", "ceil", "abs"):
+                continue
+            return False
+    return True
+
+
+def _piece_stats(pc):
+    """(sum, first sample, last sample, step) of a waveform piece: k*linspace(a, b, num=n) or ones(n); None if unreadable"""
+    if len(pc.t) != 1:
+        return None
+    (m, c), = pc.t.items()
+    arr = [(a, e) for a, e in m if a[0] == "app" and a[1] in ("call:numpy.linspace", "call:numpy.ones")]
+    if len(arr) != 1 or arr[0][1] != 1:
+        return None
+    a = arr[0][0]
+    k = T.Poly({frozenset(x for x in m if x[0] is not a): c})
+    args = [T.dec(x) for x in a[2]]
+    if a[1] == "call:numpy.ones":
+        if len(args) != 1 or not isinstance(args[0], T.Poly):
+            return None
+        return {"sum": T.mul(k, args[0]), "first": k, "last": k, "step": T.const(0), "n": args[0]}
+    if len(args) != 3 or not all(isinstance(x, T.Poly) for x in args):
+        return None
+    na = args[2].single_atom()
+    if na is None or na[0] != "app" or na[1] != "kw:num":
+        return None
+    n = T.dec(na[2][0])
+    lo, hi = args[0], args[1]
+    # sum of n equally spaced samples from lo to hi is n (lo + hi) / 2 ; consecutive samples differ by (hi - lo) / (n - 1)
+    return {"sum": T.mul(k, T.scale(T.mul(n, T.add(lo, hi)), Fraction(1, 2))), "first": T.mul(k, lo), "last": T.mul(k, hi),
+            "step": T.mul(k, T.mul(T.sub(hi, lo), T.power(T.sub(n, T.const(1)), -1))), "n": n}
+
+
+def _z7(run, f, o, wave, ctext):
+    """trapezoid regime of trap_grad: unit pulse = ramp up to 1, N ones, ramp down; returned = pulse * area / (sum(pulse) dt).
+    |g| <= gmax  <=>  gmax dt sum(pulse) >= area, proved with the lower bound of N;  slew: the ramp step is amplitude / R with R >= gmax/(dgdt dt)."""
+    gmax, dgdt, dt, area = (T.sym(n_, real=True) for n_ in ("gmax", "dgdt", "dt", "area"))
+    if len(wave.t) != 1:
+        return False
+    (m, c), = wave.t.items()
+    cat = [(a, e) for a, e in m if a[0] == "app" and a[1] == "call:numpy.concatenate"]
+    if len(cat) != 1 or cat[0][1] != 1:
+        return False
+    pieces = T.dec(cat[0][0][2][0])
+    if not (isinstance(pieces, tuple) and all(isinstance(x, T.Poly) for x in pieces)):
+        return False
+    has_flat = any(a[0] == "app" and a[1] == "call:numpy.ones" for pc in pieces for a, _ in _atoms_of(pc))
+    if not has_flat:
+        return False      # the triangle regime (two ramps, no flat top) is not decided
+    stats = [_piece_stats(pc) for pc in pieces]
+    label = "trap_grad trapezoid[%s]" % ctext[:50]
+    if len(pieces) != 3 or any(s_ is None for s_ in stats) or stats[1]["step"] != T.const(0):
+        run.bad("Z7", label, f.loc(), "trap_grad: on the path [%s] the unit pulse is not ramp / flat top / ramp built from linspace and ones: %s" % (ctext[:100], T.show(wave, 200)),
+                stmt="Z7:form:" + ctext[:60])
+        return True
+    scale = T.Poly({frozenset(x for x in m if x[0] is not cat[0][0] and not (x[0][0] == "app" and x[0][1] == "sum")): c})
+    total = T.add(T.add(stats[0]["sum"], stats[1]["sum"]), stats[2]["sum"])
+    one = T.const(1)
+    shape_ok = stats[0]["first"].is_zero() and stats[2]["last"].is_zero() and T.eq(stats[0]["last"], one) and T.eq(stats[2]["first"], one) and T.eq(stats[1]["first"], one) \
+        and T.eq(scale, T.mul(area, T.power(dt, -1)))
+    run.check(shape_ok, "Z7", label + " shape", f.loc(), "unit pulse rises 0 -> 1, stays at 1, falls 1 -> 0 and is scaled by area / (sum(pulse) dt)",
+              "trap_grad: on the path [%s] the pulse pieces run %s -> %s, %s, %s -> %s and the scale is %s / sum(pulse); expected 0 -> 1, 1, 1 -> 0 and area/dt" % (
+                  ctext[:80], T.show(stats[0]["first"], 40), T.show(stats[0]["last"], 40), T.show(stats[1]["first"], 40), T.show(stats[2]["first"], 40),
+                  T.show(stats[2]["last"], 40), T.show(scale, 60)), stmt="Z7:shape:" + ctext[:60])
+    if not shape_ok:
+        return True
+    cands = [T.sub(T.mul(T.mul(gmax, dt), lb), area) for lb in _lower_bounds(total)]
+    good = [d_ for d_ in cands if _provably_nonneg(d_)]
+    d = good[0] if good else (cands[-1] if cands else None)
+    ok = bool(good)
+    run.check(ok, "Z7", label + " amplitude", f.loc(), "gmax*dt*sum(pulse) - area >= %s >= 0, so the plateau area/(sum(pulse) dt) <= gmax" % (T.show(d, 60) if d is not None else "?"),
+              "trap_grad: on the trapezoid path [%s] the plateau amplitude is area/(sum(pulse)*dt) with sum(pulse) = %s; the best provable lower bound of gmax*dt*sum(pulse) - area is %s, "
+              "which is not >= 0: the flat top can be too short (its sample count must round the required length UP), so the rescaled plateau exceeds gmax" % (
+                  ctext[:80], T.show(total, 200), T.show(d, 120) if d is not None else "not available (a rounding that is not a ceil of the required length)"),
+              stmt="Z7:amp:" + ctext[:60])
+    # slew: inside a ramp consecutive samples differ by amplitude * |step|, with |step| = 1/R ; amplitude <= gmax (above)
+    step = stats[0]["step"]
+    c2 = [T.sub(T.mul(T.mul(dgdt, dt), r_), gmax) for r_ in (_lower_bounds(T.power(step, -1)) if len(step.t) == 1 else [])]
+    ok2 = ok and any(_provably_nonneg(d_) for d_ in c2) and T.eq(stats[2]["step"], T.neg(step))
+    run.check(ok2, "Z8", label + " slew", f.loc(), "ramp step = amplitude / R with R >= gmax/(dgdt dt), so |dg| <= dgdt dt between samples (plateau joins at the same value)",
+              "trap_grad: on the trapezoid path [%s] a ramp changes by amplitude * %s per sample; with amplitude up to gmax this is not provably <= dgdt*dt "
+              "(the ramp needs at least gmax/(dgdt dt) samples, or the amplitude bound Z7 failed)" % (ctext[:80], T.show(step, 80)), stmt="Z8:" + ctext[:60])
+    return True
+
+
 def _infeasible(p, f):
     """a syntactic path that cannot end in a return: it branches against the constant just assigned to the tested variable, or it tests
     a local that no statement on the path has assigned (UnboundLocalError at run time)"""
@@ -106,6 +293,10 @@ def check(run, M, tier):
     run.rule("Z6", "the designers are plain functions: no memoising decorator hands the same waveform array to several callers")
     run.trust("arithmetic fact: for X > 0, ceil(X) >= X, hence Y / ceil(Y / L) <= L")
     run.rule("Z3", "spokes_grad builds its slice-select lobes from min_trap_grad and its blips / refocusing lobe from trap_grad with the documented areas")
+    run.rule("Z7", "trap_grad, trapezoid regime: the returned plateau area/(sum(pulse) dt) is <= gmax because gmax*dt*sum(pulse) >= area follows from the flat-top "
+                   "sample count being the required length rounded up (lemma ceil(x) >= x)")
+    run.rule("Z8", "trap_grad, trapezoid regime: ramps change by amplitude/R per sample with R = ceil(gmax/(dgdt dt)), and the plateau joins them at the same value")
+    n_trapezoid = []
     for q in ("sigpy.mri.rf.trajgrad.trap_grad", "sigpy.mri.rf.trajgrad.min_trap_grad"):
         f = M.func(q)
         name = q.split(".")[-1]
@@ -158,6 +349,8 @@ def check(run, M, tier):
                 continue
             if name == "trap_grad":
                 n_area += 1
+                if _z7(run, f, o, wave, ctext):
+                    n_trapezoid.append(ctext)
                 tot = T.mul(vn.lin_sum(wave), dt)
                 run.check(T.eq(tot, area), "Z2", "trap_grad area[%s]" % ctext[:60], f.loc(), "sum(returned waveform)*dt == area",
                           "trap_grad: on the path [%s] sum(waveform)*dt normalises to %s, not to the requested area" % (ctext[:120], T.show(tot, 200)), stmt="Z2:trap:" + ctext[:80])
@@ -175,6 +368,8 @@ def check(run, M, tier):
                 run.check(T.eq(tot, area), "Z2", "min_trap_grad flat area[%s]" % ctext[:60], f.loc(), "sum(flat top)*dt == area",
                           "min_trap_grad: on the path [%s] sum(flat top)*dt normalises to %s, not to the requested area" % (ctext[:120], T.show(tot, 200)), stmt="Z2:flat:" + ctext[:80])
         run.floor("Z2-" + name, 2, n_area, "area identities of " + name)
+        if name == "trap_grad":
+            run.floor("Z7", 1, len(n_trapezoid), "trapezoid-regime paths of trap_grad")
     # ---- Z6 (module-wide part)
     from ..common import check_no_memoisation
     check_no_memoisation(run, M, "Z6", ["sigpy.mri.rf.trajgrad"], "a cached waveform array is shared by all callers with equal arguments, so an in-place rescale or sign flip "
